@@ -66,8 +66,8 @@ func (g *generatorContext) parseType(t reflect.Type) (_ node, returnedError erro
 		}
 		return n, nil
 	}
-	if t.Implements(parseableType) {
-		return &parseable{t.Elem()}, nil
+	if t.Implements(parseableType) && t.Kind() != reflect.Interface {
+		return &parseable{t}, nil // Parse has a value receiver ("t" is never a pointer type here).
 	}
 	if reflect.PtrTo(t).Implements(parseableType) {
 		return &parseable{t}, nil
